@@ -19,7 +19,7 @@ St0 == [pending |-> D!EmptyPending,      \* specification state of the decoder
         runs    |-> [x \in {} |-> NoRun], \* ghost: clean runs, from the frames alone
         sent    |-> {}]                    \* ghost: messages the senders have sent (declared by the case)
 
-Cnt0 == [tecmp_converted |-> 0, tecmp_rejected |-> 0, decodes |-> 0, delivered |-> 0, reassembled |-> 0, reassembled3 |-> 0, wraps |-> 0,
+Cnt0 == [rechecked |-> 0, tecmp_converted |-> 0, tecmp_rejected |-> 0, decodes |-> 0, delivered |-> 0, reassembled |-> 0, reassembled3 |-> 0, wraps |-> 0,
          c04_frames |-> 0, c05_expect |-> 0, faulted_delivered |-> 0, rejected_segments |-> 0,
          pending_nonempty |-> 0, solo_compared |-> 0, tecmp_or_short |-> 0]
 
@@ -46,7 +46,7 @@ FromObs(pend) ==
                     seg |-> p.seg, ver |-> p.ver, mt |-> p.mt, cur |-> p.cur]]
 
 (* ---- monitors of one decode event ------------------------------------------ *)
-DecodeFails(e) ==
+DecodeFails0(e) ==
     LET b     == e.in
         out   == e.out
         exp   == D!Decode(st.pending, b)
@@ -81,6 +81,9 @@ DecodeFails(e) ==
    \cup (IF ~cmp /\ Len(b) < 8 /\ out # << >> THEN {"C15", "C18"} ELSE {})
    \cup (IF out # exp.out THEN {"NC"} ELSE {})
    \cup (IF Has(e, "pend") /\ ObsPendSet(e.pend) # SpecPendSet(exp.pend) THEN {"NC"} ELSE {})
+
+(* a null packet pointer in the result: nothing else can be asked of it *)
+DecodeFails(e) == IF \E x \in 1..Len(e.out) : "null" \in DOMAIN e.out[x] THEN {"C02"} ELSE DecodeFails0(e)
 
 After(e) ==
     LET b    == e.in
@@ -142,6 +145,12 @@ Step ==
               /\ slots' = IF Has(e, "save") THEN [slots EXCEPT ![e.save] = st'] ELSE slots
               /\ cnt' = Bump(cnt, e)
               /\ UNCHANGED ep
+         [] live /\ e.e = "dec.recheck" ->
+              (* the decoder and its copies are gone, the input buffers were unmapped long ago: the packets handed *)
+              (* out earlier must be non-null and read exactly as they did when they were returned                *)
+              /\ Report(IF e.orig # e.now \/ \E x \in 1..Len(e.now) : "null" \in DOMAIN e.now[x] THEN {"C02"} ELSE {})
+              /\ cnt' = [cnt EXCEPT !.rechecked = @ + Len(e.now)]
+              /\ UNCHANGED << ep, live, st, slots >>
          [] OTHER ->
               /\ Report({"UNKNOWN-EVENT"})
               /\ Unch
